@@ -84,10 +84,15 @@ def run(prop, tier, seed, replay=None):
         "the contracts are validated by the correspondence at K = 6, 7 where the code is nothing but these macros",
         "in-place overloads (a += b, add(r, a, b), ...) are tied to the same model function as the three-operand ones (same body with b := a); "
         "aliasing beyond that is property C15",
-        "Tier C operations (gcd, inv_mod, bezout_mod, exp_mod, mod_n, arazi_qi, div and general shifts, rint wrappers, mpz conversions) are modelled and/or "
-        "checked against the specification by correspondence only; no all-inputs theorem is claimed for them",
+        "rint<K> is modelled as its field Value (the two's-complement image) and the theorems read results with the signed reading sval; the wrappers "
+        "modelled branch by branch are add/sub/mul/addmul/neg/~/cmp/lmul/lsquare/div_q/div_r/<</>>/sign extension/mod_n (both widths)/inv_mod; the "
+        "mixed rint (x) built-in scalar division, shift, comparison and bit forms are checked against the specification by correspondence only",
+        "conversions to/from built-in types: the C casts of a limb to a narrower or signed type and uint64_t -> double (round to nearest even) are "
+        "modelled by their arithmetic contracts; ruint<6>(double b) for b < 0 is undefined in C++ (the model takes the x86-64 result b mod 2^64); "
+        "(double) of a ruint/rint converts only the least significant limb: exact below 2^53, and for values >= 2^64 the result is the double of "
+        "the value mod 2^64 (theorem to_double_is_low_limb; the specification only covers values < 2^64)",
         "__RECINT_USE_FAST_128 is not defined in this configuration (the __uint128_t path is compiled out)",
-        "mpz_import/mpz_export/mpz_fdiv_r_2exp/mpz_class arithmetic used by the conversions and by the harness are GMP (trusted); conversions to/from double are only checked on integers of magnitude < 2^53",
+        "mpz_import/mpz_export/mpz_fdiv_r_2exp/mpz_class arithmetic used by the conversions and by the harness are GMP (trusted); doubles are compared exactly as integers (mpz_set_d)",
     ]
     L = flow.lean_stage(V, ["GivaroModel.Props.C06"], "GivaroModel/Props/C06.lean")
     thorough = tier == "thorough"
@@ -154,7 +159,9 @@ def run(prop, tier, seed, replay=None):
         rule="per size K and operation: boundary values (0, 1, 2^(bits-1)+-1, 2^bits-1-j), limb-structured operands (each limb from "
              "{0,1,2^63,2^64-1,random}), complements (b + c = 2^bits and 2^bits - 1), normalised divisors with top limb 2^63 / 2^63+1 / 2^64-1 and "
              "dividends q*b + r built so that div_2_1/div_3_2 preconditions hold, shift counts 0,1,63,64,65,bits/2+-1,bits+-1,2*bits,2^63; "
-             "non-trivial = some operand outside {0,1}; distinct = distinct (operation, K, threshold, operands)",
+             "bezout_mod on coprime, non-coprime and boundary pairs (1,1), (1,d), (c,1), c = d, c | d, 2^bits-1; rint wrappers on the signed grid "
+             "{0, +-1, +-2, MAX, MAX-1, MIN, MIN+1, +-2^(bits/2)}^2 through every form; word conversions on limits of int32/uint32/int64, doubles "
+             "around 2^53..2^64 (ties, odd/even neighbours); non-trivial = some operand outside {0,1}; distinct = distinct (operation, K, threshold, operands)",
         extra={"operations_by_size": dict(sorted(ops.items())), "harness_builds": sorted(bins),
                "mixed_forms_not_compiling": {k: sorted(v, key=MIXED_TYPES.index) for k, v in sorted(notcompiling.items())}},
         nontrivial=lambda l: any(t not in ("0", "1") for t in l.split(" = ")[0].split(" ")[3:]))
